@@ -8,8 +8,8 @@ from mc.oracle import html_tree
 
 ALPHABET = ["<", ">", "&", '"', "'", "`", "script", " style=", " onerror=", "</div>", "</style>", "x", "\u0338", "\\", "\\074", "\\g<1>"]
 BENIGN = "benign"
-CLI_SLOTS = ["selector", "file", "bg", "original_text", "tuned_text"]
-API_SLOTS = ["fg", "bg", "tuned_fg", "selector", "file"]
+CLI_SLOTS = ["selector", "file", "bg", "original_text", "tuned_text", "original_level", "new_level"]
+API_SLOTS = ["fg", "bg", "tuned_fg", "selector", "file", "original_level", "new_level"]   # level labels: caller-supplied when the generator is used directly
 
 
 def _in_tmp(fn):
@@ -68,19 +68,25 @@ def _api_report(values, ncards=1):
 _CLI_WHERE = {
     "selector": ("selector", None), "file": ("file-info", None),
     "bg": (None, "background-color: %s;"), "original_text": ("color-code", "color: %s;"), "tuned_text": ("color-code", "color: %s;"),
+    "original_level": ("badge", None), "new_level": ("badge", None),
 }
 _API_WHERE = {
     "selector": ("selector", None), "file": ("file-info", None),
     "bg": (None, "background-color: %s;"), "fg": ("color-code", "color: %s;"), "tuned_fg": ("color-code", "color: %s;"),
+    "original_level": ("badge", None), "new_level": ("badge", None),
 }
 _BASE = {}
 
 
-def _baseline(gen):
-    if gen not in _BASE:
-        html = _cli_report({}) if gen == "cli" else _api_report({})
-        _BASE[gen] = html_tree.skeleton(html_tree.events(html))
-    return _BASE[gen]
+def _baseline(gen, slot=None):
+    """Skeleton of the report for benign text.  A level label selects the badge's class by its value, so for the level
+    slots the benign report is the one with a benign *label* in that slot."""
+    key = (gen, slot if slot in ("original_level", "new_level") else None)
+    if key not in _BASE:
+        values = {key[1]: BENIGN} if key[1] else {}
+        html = _cli_report(values) if gen == "cli" else _api_report(values)
+        _BASE[key] = html_tree.skeleton(html_tree.events(html))
+    return _BASE[key]
 
 
 def judge_slot(gen, slot, text):
@@ -89,7 +95,7 @@ def judge_slot(gen, slot, text):
         html = _cli_report({slot: text}) if gen == "cli" else _api_report({slot: text})
     except Exception as e:  # noqa
         return [dict(sig="report/raises", case=case, observed=repr(e), msg="%s report with %s=%r raised %r" % (gen, slot, text, e))]
-    return _judge_html(html, _baseline(gen), (_CLI_WHERE if gen == "cli" else _API_WHERE)[slot], text, case,
+    return _judge_html(html, _baseline(gen, slot), (_CLI_WHERE if gen == "cli" else _API_WHERE)[slot], text, case,
                        "%s report, slot %s = %r" % (gen, slot, text))
 
 
